@@ -172,7 +172,11 @@ class BezierCurve(BaseCurve):
         if times == 0:
             return
         mattrans, _ = Operations.degree_decrease(degree, times)
-        self.ctrlpoints = tuple(np.dot(mattrans, points))
+        new_points = list(np.dot(mattrans, points))
+        # The curve keeps its end points: keep the objects themselves,
+        # they may be shared with the neighbour segments of a jordan curve
+        new_points[0], new_points[-1] = points[0], points[-1]
+        self.ctrlpoints = tuple(new_points)
         return self
 
     def split(self, nodes: Tuple[float]) -> Tuple[BezierCurve]:
